@@ -2,6 +2,8 @@
 
 exit 0  every obligation proved or matched by a known finding
 exit 1  a violation (line `VIOLATION property=<id> replay=<path>` per violation)
+exit 2  undecided: no violation, but a P-tier obligation was left open (solver unknown / budget / obligation of the
+        reference list not generated); never reported as a violation, never counted as held
 exit 3  internal error of the checker (never used for a property violation)
 """
 import argparse
